@@ -346,13 +346,14 @@ def _shape_models() -> List[Tuple[str, str]]:
             + 'class Without_constructor(DBC):\n    """Represent nothing."""\n',
         )
     )
-    # Bodies at their smallest: enumeration with a single literal, class and abstract class without properties, a class
+    # Bodies at their smallest: enumeration with a single literal and without literals, class and abstract class without properties, a class
     # holding only an optional property, a constrained primitive without invariants
     r.append(
         (
             "smallest-bodies",
             _MODEL_HEADER
             + 'class Kind(Enum):\n    """Represent a kind."""\n\n    Only = "only"\n\n\n'
+            + 'class Empty_kind(Enum):\n    """Represent no kind at all."""\n\n\n'
             + 'class Code(str, DBC):\n    """Represent a code."""\n\n\n'
             + '@abstract\n@serialization(with_model_type=True)\nclass Abstract_nothing(DBC):\n    """Represent nothing abstractly."""\n\n\n'
             + 'class Nothing(Abstract_nothing):\n    """Represent nothing."""\n\n\n'
